@@ -1,5 +1,22 @@
 //! Self-tests of the harness' own reference components.
 fn main() {
+    use fv::engine::glob_match as g;
+    let t = [
+        (g("a|b", "a|b"), true),
+        (g("a|b", "a|bc"), false),
+        (g("C01|amd64|{*}|-|*|addr32", "C01|amd64|stosb|-|*|addr32"), true),
+        (g("C01|amd64|{*}|-|*|addr32", "C01|x86|stosb|-|*|addr32"), false),
+        (g("C01|{*}|movsd|{*}", "C01|x86|movsd|xmm,m/w128|reg:rsi|"), true),
+        (g("C01|{*}|movsd|{*}", "C01|x86|movsq|-|*|addr32"), false),
+        (g("x{*}yz", "xyz"), true),
+        (g("x{*}yz", "xz"), false),
+        (g("{*}", ""), true),
+    ];
+    if let Some(k) = t.iter().position(|(a, b)| a != b) {
+        println!("HARNESS-ERROR glob_match self-test {}", k);
+        std::process::exit(3);
+    }
+    println!("glob_match self-test: {} ok", t.len());
     match fv::bv::self_test() {
         Ok(n) => println!("Bv self-test: {} comparisons ok", n),
         Err(e) => {
